@@ -49,6 +49,7 @@ class Cls:
     nested: list = field(default_factory=list)
     doc: str | None = None
     is_exception: bool = False
+    nested_first: bool = False  # nested classes are written before the attributes and the constructor
 
 
 @dataclass
@@ -182,11 +183,16 @@ def render_cls(c: Cls, indent: str = "") -> str:
             ctor.body = "pass"
         body.append(render_fn(ctor, indent + "    ") + "\n")
         ctor.body = saved
+    nested_src = []
     for n in c.nested:
         if isinstance(n, En):
-            body.append(render_enum(n, indent + "    ") + "\n")
+            nested_src.append(render_enum(n, indent + "    ") + "\n")
         else:
-            body.append(render_cls(n, indent + "    ") + "\n")
+            nested_src.append(render_cls(n, indent + "    ") + "\n")
+    if c.nested_first:
+        body = nested_src + body
+    else:
+        body += nested_src
     for m in c.methods:
         body.append(render_fn(m, indent + "    ") + "\n")
         if m.role == "prop" and m.setter:
@@ -453,6 +459,8 @@ class GenCfg:
     inheritance: bool = False
     docs: bool = False
     foreign: bool = False
+    local_foreign: bool = False  # plus a generated library next to the package (sub-modules, upper-case module name)
+    local_foreign_lower: bool = False  # ... and its lower-case class names (they change under naming conversion)
     private_bases: bool = False  # public classes derive from private classes of their module and override some methods
     private_name_clashes: bool = False  # private members named like re-exported private module-level declarations
     shared_member_names: bool = False  # nested classes reuse member names of their outer class
@@ -528,6 +536,8 @@ def random_pkg(rng, cfg: GenCfg) -> Pkg:
         _add_private_bases(rng, names, pkg)
     if cfg.private_name_clashes:
         _add_private_name_clashes(rng, pkg)
+    if cfg.foreign and cfg.local_foreign:
+        pkg.extra_files.update(LOCAL_FOREIGN_FILES)
     return pkg
 
 
@@ -590,9 +600,30 @@ def _add_reexport(rng, names, pkg: Pkg, m: Mod, d, form: str) -> None:
 FOREIGN = [("pathlib", "Path"), ("decimal", "Decimal"), ("fractions", "Fraction"), ("argparse", "Namespace"), ("random", "Random"), ("threading", "Thread"), ("logging", "Logger"), ("string", "Template"), ("pathlib", "PurePath")]
 
 
+# a library next to the analysed package: class names in every case style, sub-package, sub-module, upper-case module
+LOCAL_FOREIGN = {
+    "extlib": ["Alpha", "zeta", "mid_point", "_Under"],
+    "extlib.parts": ["Mid", "node", "Zulu"],
+    "extlib.parts.deep": ["Deep", "low_name"],
+    "extlib.Upper": ["Thing", "alpha_thing"],
+    "extlib.aaa": ["First"],
+}
+LOCAL_FOREIGN_FILES = {
+    "extlib/__init__.py": "".join(f"class {n}: ...\n\n\n" for n in LOCAL_FOREIGN["extlib"]),
+    "extlib/parts/__init__.py": "".join(f"class {n}: ...\n\n\n" for n in LOCAL_FOREIGN["extlib.parts"]),
+    "extlib/parts/deep.py": "".join(f"class {n}: ...\n\n\n" for n in LOCAL_FOREIGN["extlib.parts.deep"]),
+    "extlib/Upper.py": "".join(f"class {n}: ...\n\n\n" for n in LOCAL_FOREIGN["extlib.Upper"]),
+    "extlib/aaa.py": "".join(f"class {n}: ...\n\n\n" for n in LOCAL_FOREIGN["extlib.aaa"]),
+}
+
+
 def _type_ref(rng, public_classes, m: Mod, cfg: GenCfg) -> str:
     if cfg.foreign and rng.random() < 0.15:
-        mod, name = rng.choice(FOREIGN)
+        if cfg.local_foreign and rng.random() < 0.6:
+            mod = rng.choice(sorted(LOCAL_FOREIGN))
+            name = rng.choice([n for n in LOCAL_FOREIGN[mod] if cfg.local_foreign_lower or (n[0].isupper() and "_" not in n)])
+        else:
+            mod, name = rng.choice(FOREIGN)
         line = f"from {mod} import {name}"
         if line not in m.imports:
             m.imports.append(line)
@@ -653,6 +684,8 @@ def _random_cls(rng, names, priv, public_classes, m, cfg, depth) -> Cls:
                     if f.role == "inst" and not any(x.name == f.name for x in inner.methods):
                         inner.methods.append(Fn(f.name, [Param(names.fresh("sh"), "int")], "int", role="inst"))
             c.nested.append(inner)
+        if cfg.shared_member_names:
+            c.nested_first = rng.random() < 0.5
     return c
 
 
